@@ -102,6 +102,8 @@ let model_query rd q =
   | ["sr"; k] -> show_res show_records (Reader.seek_ref inflate rd (bytes_of_hex k))
   | ["sl"; k; u] -> show_res show_records (Reader.seek_log inflate rd (bytes_of_hex k) (n_of_string u))
   | ["rf"; o] -> show_res show_records (Reader.refs_for inflate rd (bytes_of_hex o))
+  | ["rr"; k] -> show_res (function Some r -> show_refs [r] | None -> "") (Reader.read_ref inflate rd (bytes_of_hex k))
+  | ["rl"; k; u] -> show_res (function Some l -> show_logs [l] | None -> "") (Reader.read_log_at inflate rd (bytes_of_hex k) (n_of_string u))
   | _ -> "badquery"
 
 (* specification side: what the query must return for the given source records *)
@@ -111,6 +113,12 @@ let spec_query (refs : Records.ref_record list) (logs : Records.log_record list)
   | ["sl"; k; u] -> let key = Records.log_key_of (bytes_of_hex k) (n_of_string u) in
     show_logs (drop_while (fun l -> log_ltb l key) logs)
   | ["rf"; o] -> let o = bytes_of_hex o in show_refs (L.filter (fun r -> Records.points_to o r) refs)
+  | ["rr"; k] -> let k = bytes_of_hex k in
+    (match L.filter (fun r -> Bytes.bytes_eqb r.Records.r_name k) refs with r :: _ -> show_refs [r] | [] -> "")
+  | ["rl"; k; u] -> let name = bytes_of_hex k in let key = Records.log_key_of name (n_of_string u) in
+    (match drop_while (fun l -> log_ltb l key) logs with
+     | l :: _ when Bytes.bytes_eqb l.Records.l_name name -> show_logs [l]
+     | _ -> "")
   | _ -> "badquery"
 
 let norm_logs exact hs (logs : Records.log_record list) : Records.log_record list option =
@@ -209,6 +217,12 @@ let merged_query suppress (ts : Compact.table list) q =
   | ["sr"; k] -> show_refs (Compact.merged_refs suppress ts (bytes_of_hex k))
   | ["sl"; k; u] -> show_logs (Compact.merged_logs suppress ts (Records.log_key_of (bytes_of_hex k) (n_of_string u)))
   | ["rf"; o] -> show_refs (Compact.merged_refs_for suppress ts (bytes_of_hex o))
+  | ["rr"; k] -> let k = bytes_of_hex k in
+    (match Compact.merged_refs suppress ts k with r :: _ when Bytes.bytes_eqb r.Records.r_name k -> show_refs [r] | _ -> "")
+  | ["rl"; k; u] -> let name = bytes_of_hex k in
+    (match Compact.merged_logs suppress ts (Records.log_key_of name (n_of_string u)) with
+     | l :: _ when Bytes.bytes_eqb l.Records.l_name name -> show_logs [l]
+     | _ -> "")
   | _ -> "badquery"
 
 (* specification: overlay / view of the source records *)
